@@ -42,9 +42,13 @@ def s_reg(rng, n):
 
 
 def s_int(rng, v):
-    k = rng.randrange(3)
+    k = rng.randrange(5)
     if k == 0:
         return str(v)
+    if k == 3:
+        return ('-' if v < 0 else '') + '0x' + hex(abs(v))[2:].upper()        # hex digits in upper case
+    if k == 4:
+        return ('-' if v < 0 else '') + rng.choice(['0X' + hex(abs(v))[2:], '0B' + bin(abs(v))[2:]])    # Python literal syntax
     return ('-' if v < 0 else '') + (hex(abs(v)) if k == 1 else bin(abs(v)))
 
 
@@ -142,6 +146,18 @@ def extra_items(rng):
         out.append(it)
     for _ in range(rng.randint(0, 2)):
         out.append({'k': 'inst', 'm': rng.choice(['csrrwi', 'csrrsi', 'csrrci']), 'ops': [R(), {'i': rng.randrange(32)}, {'i': rng.choice([0, 0x300, 0x7ff])}]})
+    for _ in range(rng.randint(0, 3)):
+        # literal (numeric) branch / jump targets: the target position is parsed as an integer, not as an expression
+        m = rng.choice(['beq', 'bne', 'bltu', 'jal', 'c.j', 'c.beqz'])
+        v = 2 * rng.randrange(-100, 100)
+        if m == 'jal':
+            out.append({'k': 'inst', 'm': m, 'ops': [R(), {'i': 2 * rng.randrange(-5000, 5000)}]})
+        elif m == 'c.j':
+            out.append({'k': 'inst', 'm': m, 'ops': [{'i': v}]})
+        elif m == 'c.beqz':
+            out.append({'k': 'inst', 'm': m, 'ops': [{'r': rng.randrange(8, 16)}, {'i': v}]})
+        else:
+            out.append({'k': 'inst', 'm': m, 'ops': [R(), R(), {'i': v * 8}]})
     for _ in range(rng.randint(0, 2)):
         out.append({'k': 'inst', 'm': rng.choice(['c.lw', 'c.sw']), 'ops': [{'r': rng.randrange(8, 16)}, {'r': rng.randrange(8, 16)}, {'i': rng.choice([0, 4, 64, 124])}]})
     return out
